@@ -65,8 +65,15 @@ TDispatch(p) ==
 TFinish(p) ==
     /\ FinReady(p) /\ \A q \in Procs : FinReady(q) => p <= q
     /\ done' = (worker[p] :> Ev(p)[3]) @@ done
-    /\ bad' = IF Ev(p)[3] = Tr.seq[worker[p]] THEN bad
-              ELSE Flag(bad, "worker outcome of task " \o ToString(worker[p]) \o " differs from sequential parsing")
+    /\ bad' = LET t == worker[p] out == Ev(p)[3] IN
+              \* ParsePool!SeqOutcome: all trees, or (a failure in any part) the error's name and no trees
+              IF Tr.failat[t] = 0 /\ (out[1] # "ok" \/ out[2] # Tr.parts[t])
+              THEN Flag(bad, "task " \o ToString(t) \o " parses but the worker returned " \o ToString(out))
+              ELSE IF Tr.failat[t] # 0 /\ (out[1] # "err" \/ out[2] # 0)
+              THEN Flag(bad, "task " \o ToString(t) \o " fails in part " \o ToString(Tr.failat[t]) \o " but the worker returned " \o ToString(out) \o " (error name and no trees expected)")
+              ELSE IF out # Tr.seq[t]
+              THEN Flag(bad, "worker outcome of task " \o ToString(t) \o " differs from sequential parsing")
+              ELSE bad
     /\ worker' = [worker EXCEPT ![p] = 0]
     /\ pos' = [pos EXCEPT ![p] = pos[p] + 1]
     /\ UNCHANGED <<tid, ppos, next, yielded, result>>
